@@ -62,3 +62,4 @@ int cmd_promela(int, char**);
 int cmd_lua(int, char**);
 int cmd_tables(int, char**);
 int cmd_validate(int, char**);
+int cmd_trie(int, char**);
